@@ -169,8 +169,8 @@ def expected_for(line):
     return None
 
 
-IMPL_KINDS = {"pw", "ph", "bs", "ps", "pwr", "phr", "bsr", "psr", "sc", "tbl", "layenc", "errs", "cmp"}
-MODEL_KINDS = {"pw", "ph", "bs", "bs32", "ps", "ps32", "pwr", "phr", "bsr", "psr", "sc", "tbl", "lay", "cd", "dct"}
+IMPL_KINDS = {"pw", "ph", "bs", "ps", "pwr", "phr", "bsr", "psr", "sc", "tbl", "gs", "layenc", "errs", "cmp"}
+MODEL_KINDS = {"pw", "ph", "bs", "bs32", "ps", "ps32", "pwr", "phr", "bsr", "psr", "sc", "tbl", "gs", "lay", "cd", "dct"}
 
 
 def layenc_line(w, a, h, s):
@@ -203,6 +203,14 @@ def gen_cases(ctx):
             for st in (0, 1, 37, 64, 100, -100):
                 for h in range(1, 71):
                     add("psr %d %d %d %d 1 70" % (s, c, st, h), "exh-planesize")
+    # ---- getSubsamp: every combination of sampling factors 1..4 (model vs the level the API reports for such a JPEG)
+    for yh in range(1, 5):
+        for yv in range(1, 5):
+            for bh in range(1, 5):
+                for bv in range(1, 5):
+                    for rh in range(1, 5):
+                        for rv in range(1, 5):
+                            add("gs %d %d %d %d %d %d" % (yh, yv, bh, bv, rh, rv), "exh-getSubsamp")
     # ---- scaled dimensions: every factor x dims 0..200 + random JPEG dims + the int boundary
     for (n, d) in T["sf"]:
         for dim in list(range(0, 201)) + [rng.range(201, 65535) for _ in range(40)] + [65535, 65500, (INT_MAX - d) // n]:
@@ -310,7 +318,28 @@ def gen_cases(ctx):
         ex = [rng.choice([-1, 0, 0, 1, 3, 7, 16, 33]) for _ in range(3)]
         add("cmp %d %d %d %d %d %d %d %d %d %d %d %d" % (rng.below(1 << 60), w, h, s, rng.choice([5, 30, 50, 75, 90, 95, 100]), sfi,
             rng.choice(ALIGNS), rng.choice(pfs), ex[0], ex[1], ex[2], rng.below(64)), "compose")
+    # ---- composition on JPEGs built through the libjpeg API: sampling factors written in non-standard ways (denoting a
+    #      TJSAMP level by ratio, or none) x scan scripts incl. incomplete progressive ones (DC only, partial AC bands,
+    #      final Al > 0, per-component differences, random with refinements): block smoothing and the choice of the
+    #      upsampler depend on these, and tj3Compress8 never produces them
+    nx = ctx.n(6000, 60000)
+    nfam, nscript = len(FAM_LEVEL), 8
+    for i in range(nx):
+        fam = i % nfam if i < 6 * nfam * nscript else rng.below(nfam)
+        script = (i // nfam) % nscript if i < 6 * nfam * nscript else rng.below(nscript)
+        s = FAM_LEVEL[fam] if FAM_LEVEL[fam] >= 0 else 0
+        k = rng.below(20)
+        w, h = (rng.range(1, 70), rng.range(1, 70)) if k < 15 else (rng.range(1, 200), rng.range(1, 200))
+        sfi = T["sf"].index((1, 1)) if rng.chance(1, 2) and (1, 1) in T["sf"] else rng.below(nsf)
+        ex = [rng.choice([-1, 0, 0, 1, 3, 7, 16, 33]) for _ in range(3)]
+        add("cmp %d %d %d %d %d %d %d %d %d %d %d %d %d %d" % (rng.below(1 << 60), w, h, s, rng.choice([5, 30, 50, 75, 90, 95, 100]), sfi,
+            rng.choice(ALIGNS), rng.choice(pfs), ex[0], ex[1], ex[2], rng.below(64), fam, script), "compose-libjpeg-sources")
     return cases
+
+
+# harness/c20.c FAM[]: TJSAMP level each sampling-factor family denotes (-1: none)
+FAM_LEVEL = [0, 1, 2, 3, 4, 5, 6, 1, 4, 0, 0, 0, 0, -1, -1, -1, -1, -1]
+SCRIPT_NAME = ["sequential", "dc-only", "dc-only-al1", "dc+coarse-y-ac", "partial-bands", "final-al1", "random-incomplete", "simple-progression"]
 
 
 def cmp_signature(line, out):
@@ -320,8 +349,11 @@ def cmp_signature(line, out):
     msg = out[len("cmp FAIL "):].split(";")[0]
     clause = msg.split(":")[0].split(" at ")[0]
     clause = "".join(ch for ch in clause if not ch.isdigit()).strip().replace("  ", " ")
-    if s == 2 and fastdct and T["sf"][sfi] == (1, 2) and "raw data" in msg:
+    if s == 2 and fastdct and T["sf"][sfi] == (1, 2) and "raw data" in msg and len(f) < 15:
         return "yuv420-fastdct-halfscale"
+    if len(f) >= 15:
+        fam, script = int(f[13]), int(f[14])
+        return "compose-libjpeg:%s:fam%d:%s" % (clause[:50], fam, SCRIPT_NAME[script] if 0 <= script < len(SCRIPT_NAME) else script)
     return "compose:" + clause[:60]
 
 
@@ -455,7 +487,8 @@ def run_cases(ctx, cases, exes, drv, flavours):
                         ctx.broken_tie("compose-harness", "could not set up case %s: %s" % (line, o))
             if kind == "cmp" and impl:
                 f = line.split()
-                key = ("cmp", f[4], f[6], f[7], impl.split("dec=")[-1] if "dec=" in impl else "fail", min(int(f[2]), 99) // 8, min(int(f[3]), 99) // 8)
+                key = ("cmp", f[4], f[6], f[7], impl.split("dec=")[-1] if "dec=" in impl else impl[:16], min(int(f[2]), 99) // 8, min(int(f[3]), 99) // 8,
+                       tuple(f[13:15]))
             else:
                 key = (kind, line)
         else:
